@@ -1,7 +1,7 @@
 (* C13 - A build either returns a complete result or fails with a diagnosed error. *)
 From Coq Require Import List NArith Bool String.
 From Dznpy Require Import Base.PyStr Base.Result Model.TextGen Model.Scoping Model.PortSelection Model.CppGen Model.Ast
-  Model.SupportFiles Model.Builder Proofs.BuilderFacts.
+  Model.SupportFiles Model.Builder Spec.ValidInput Proofs.BuilderFacts Proofs.C13CompleteFacts.
 Import ListNotations.
 
 (* for every parsed model and every configuration the whole pipeline (constructing the configuration objects, then
@@ -25,15 +25,29 @@ Theorem C13_eight_files : forall tp fc cfg fs, build tp fc cfg = Ok fs -> List.l
 Proof. exact build_ok_eight. Qed.
 Print Assumptions C13_eight_files.
 
-(* success implies a valid input (soundness half of "valid iff succeeds"; the completeness half is covered by the
-   correspondence leg: valid generated inputs must build, see the check): the encapsulee is found exactly once and
-   is a component or system, and every port type resolves to exactly one interface on the parent scope chain *)
-Theorem C13_success_implies_valid_partial : forall tp fc cfg fs, build tp fc cfg = Ok fs ->
+(* "valid inputs always succeed, and invalid ones always fail": a build succeeds exactly on the valid inputs, where
+   validity (Spec/ValidInput.v) is stated on the parsed model and the configuration alone - the encapsulee names exactly one
+   component or system; the port selection is consistent (C03); every port type names exactly one interface on the parent
+   scope chain; every exposed port has a semantics; wherever the generator must spell out parameter types (events of
+   multi-threaded ports) each names exactly one extern type; the multi-client settings name a multi-threaded provides port
+   with distinct claim and release in-events and a granting value of the claim's enum reply type; the shell name is not empty *)
+Theorem C13_build_succeeds_iff_valid : forall tp fc cfg, (exists fs, build tp fc cfg = Ok fs) <-> valid_input fc cfg.
+Proof. exact build_ok_iff_valid. Qed.
+Print Assumptions C13_build_succeeds_iff_valid.
+
+Theorem C13_invalid_input_fails_with_library_error : forall tp fc cfg, ~ valid_input fc cfg ->
+  exists e, build tp fc cfg = Err e /\ library_error e.
+Proof. exact invalid_input_fails. Qed.
+Print Assumptions C13_invalid_input_fails_with_library_error.
+
+(* in particular: the encapsulee is found exactly once and is a component or system, and every port type resolves to
+   exactly one interface on the parent scope chain *)
+Theorem C13_success_implies_encapsulee_and_port_types_unique : forall tp fc cfg fs, build tp fc cfg = Ok fs ->
   exists f, lookup_fqn fc (cf_encapsulee cfg) [] = [f] /\ is_component_or_system f = true /\
             forall port, In port (found_ports f) ->
               exists i, lookup_fqn fc (po_type port) (found_parent f) = [FInterface i].
 Proof. exact build_ok_sound. Qed.
-Print Assumptions C13_success_implies_valid_partial.
+Print Assumptions C13_success_implies_encapsulee_and_port_types_unique.
 
 (* non-vacuity: the pipeline rejects an unknown encapsulee with the configuration error and accepts a one-component model *)
 Definition tp0 : templates :=
@@ -54,3 +68,10 @@ Example demo_outcomes :
   Some [L "CShell.hh"; L "CShell.cc"; L "Dzn_StrictPort.hh"; L "Dzn_ILog.hh"; L "Dzn_MiscUtils.hh"; L "Dzn_MetaHelpers.hh";
         L "Dzn_MultiClientSelector.hh"; L "Dzn_MutexWrapped.hh"].
 Proof. split; vm_compute; reflexivity. Qed.
+(* ... so the hypothesis of the iff is satisfiable, and so is its negation *)
+Example demo_valid : valid_input fc0 (cfg0 [L "C"]) /\ ~ valid_input fc0 (cfg0 [L "Nope"]).
+Proof.
+  split.
+  - apply (C13_build_succeeds_iff_valid tp0). eexists. vm_compute. reflexivity.
+  - intros H. apply (C13_build_succeeds_iff_valid tp0) in H. destruct H as [fs H]. vm_compute in H. discriminate.
+Qed.
